@@ -272,25 +272,7 @@ def _managers(P, R):
         return f, rows
 
     # ---- Rule::is_active_at: half-open [effective, expires)
-    f, rows = table(RULE_T + "::is_active_at")
-    if rows is not None:
-        def atom(a):
-            if a == "self.date_effective is Some": return "E"
-            if a == "self.date_effective is None": return ("E", True)
-            if a == "self.date_expires is Some": return "X"
-            if a == "self.date_expires is None": return ("X", True)
-            if a == "timestamp < self.date_effective as Some.0": return "tltE"
-            if a == "self.date_effective as Some.0 < timestamp": return "Eltt"
-            if a == "timestamp < self.date_expires as Some.0": return "tltX"
-            if a == "self.date_expires as Some.0 < timestamp": return "Xltt"
-            return None
-
-        def exp(v):
-            # strict sides that the half-open window never tests make the table undecidable for that row
-            if "Eltt" in v or "Xltt" in v:
-                return "BAD"
-            return not (v.get("E") and v.get("tltE")) and not (v.get("X") and not v.get("tltX"))
-        _report_table(R, f, rows, atom, exp, "d", "is_active_at", "active iff (no effective date or t >= effective) and (no expiry or t < expires)")
+    _is_active_at(P, R)
 
     # ---- should_evaluate_rule: group (default MAIN) == active group
     f, rows = table(AM + "::should_evaluate_rule")
@@ -390,6 +372,89 @@ def _managers(P, R):
         R.hold("d", "reset_cycle clears fired_groups", fn=f)
     else:
         R.violate("d", "reset_cycle:shape", "ActivationGroupManager::reset_cycle does not clear fired_groups on every path", f)
+
+
+def _is_active_at(P, R):
+    """active iff (no effective date or t >= effective) and (no expiry or t < expires) - decided on path-sensitive decision rows
+    with a small evaluator, so `if let .. { if t < e { return false } }`, `match` + `&&`, materialised `let effective = ..` and
+    helper functions all read the same."""
+    import itertools
+    from sa.predtable import PredEval
+    f = P.one(RULE_T + "::is_active_at")
+    rows, capped = A.decision_rows(f)
+    if capped:
+        R.undecide("d", "is_active_at", "decision rows capped", f)
+        return
+    bad_atoms = []
+
+    def side(x):
+        t = fmt_sym(x, maxdepth=8)
+        if t == "timestamp":
+            return "T"
+        if t.endswith("date_effective as Some.0"):
+            return "E"
+        if t.endswith("date_expires as Some.0"):
+            return "X"
+        return None
+
+    def atom_of(sy):
+        if sy and sy[0] == "is":
+            t = fmt_sym(sy[1], maxdepth=6)
+            if t.endswith("self.date_effective") and sy[2] in ("Some", "None"):
+                return ("hasE", sy[2] == "None")
+            if t.endswith("self.date_expires") and sy[2] in ("Some", "None"):
+                return ("hasX", sy[2] == "None")
+            return None
+        cc = A.canon_cmp(sy)
+        if cc is None:
+            return None
+        a, b = side(cc[1]), side(cc[2])
+        if cc[0] == "<" and a == "T" and b in ("E", "X"):
+            return "tlt" + b
+        if cc[0] == "<=" and a in ("E", "X") and b == "T":
+            return ("tlt" + a, True)
+        if a and b:
+            bad_atoms.append("%s %s %s" % (fmt_sym(cc[1], maxdepth=4), cc[0], fmt_sym(cc[2], maxdepth=4)))
+        return None
+    pe = PredEval(P, atom_of)
+    names = ["hasE", "hasX", "tltE", "tltX"]
+    wrong, unknown, n = [], [], 0
+    for combo in itertools.product([False, True], repeat=4):
+        asg = dict(zip(names, combo))
+        if (not asg["hasE"] and asg["tltE"]) or (not asg["hasX"] and asg["tltX"]):
+            continue
+        want = not (asg["hasE"] and asg["tltE"]) and not (asg["hasX"] and not asg["tltX"])
+        vals = set()
+        for conds, ret in rows:
+            if ret is None:
+                continue
+            feas = True
+            for (c, o) in conds:
+                v = pe.cond_value(c, o, asg, 3)
+                if v is False:
+                    feas = False
+                    break
+            if feas:
+                vals.add(pe.eval(ret, asg))
+        n += 1
+        if vals == {want}:
+            continue
+        if None in vals or not vals:
+            unknown.append((asg, vals))
+        else:
+            wrong.append((asg, vals, want))
+    if bad_atoms:
+        R.violate("d", "is_active_at:comparison-shape", "is_active_at compares with the wrong strictness/direction on a window boundary: %s (the window is half-open: effective <= t < expires)" % sorted(set(bad_atoms))[:3], f)
+    elif wrong:
+        asg, vals, want = wrong[0]
+        R.violate("d", "is_active_at:%s" % ",".join("%s=%d" % (k, int(v)) for k, v in asg.items()),
+                  "is_active_at returns %s when effective date %s%s and expiry date %s%s; documented: active iff (no effective date or t >= effective) and (no expiry or t < expires)" % (
+                      sorted(vals), "present" if asg["hasE"] else "absent", (", t < effective" if asg["tltE"] else ", t >= effective") if asg["hasE"] else "",
+                      "present" if asg["hasX"] else "absent", (", t < expires" if asg["tltX"] else ", t >= expires") if asg["hasX"] else ""), f)
+    elif unknown:
+        R.undecide("d", "is_active_at", "the value of is_active_at does not reduce to the four date atoms for %s" % (unknown[0],), f)
+    else:
+        R.hold("d", "is_active_at decision table (%d assignments) == active iff (no effective date or t >= effective) and (no expiry or t < expires)" % n, "%d rows" % len(rows), f)
 
 
 def _report_table(R, f, rows, atom, exp, clause, name, doc):
@@ -536,11 +601,19 @@ def _focus_paths(f, bev):
                     evs.append(("minlen", 1))
             elif "::last(" in txt:
                 ve = A.variant_edges(f, bb) or {}
-                none_t = ve.get("None")
-                if none_t is None and "Some" in ve:
-                    none_t = ve.get(None)
-                if none_t == tgt and not (ve.get("Some") == tgt):
-                    evs.append(("last-none",))
+                if "Try::branch" in txt or "Break" in ve or "Continue" in ve:
+                    # `self.focus_stack.last()?`: the Break arm is the None case
+                    none_t = ve.get("Break")
+                    if none_t is None and "Continue" in ve:
+                        none_t = ve.get(None)
+                    if none_t == tgt and not (ve.get("Continue") == tgt):
+                        evs.append(("last-none",))
+                else:
+                    none_t = ve.get("None")
+                    if none_t is None and "Some" in ve:
+                        none_t = ve.get(None)
+                    if none_t == tgt and not (ve.get("Some") == tgt):
+                        evs.append(("last-none",))
             if evs:
                 eev[(bb, tgt, lab)] = evs
     sets, capped = A.path_event_sets(f, bev, eev)
